@@ -367,7 +367,7 @@ def discharge(hyps, goal, budget=20.0, skolems=(), want_model=True):
         for h in plain: s.add(h)
         for q in quants: s.add(q.as_forall())
         s.add(ng)
-        r, dt = _check(s, min(budget, 10.0) * 1000)
+        r, dt = _check(s, min(budget, 3.0 if quants else 10.0) * 1000)
         log.append(('A:z3-smt', r, round(dt, 3)))
         if r == 'unsat': return done('proved', 'z3-smt')
         if r == 'sat' and not quants:
